@@ -1,6 +1,12 @@
 package main
 
-import "verif/layera"
+import (
+	"fmt"
+	"path/filepath"
+
+	"verif/layera"
+	"verif/layerb"
+)
 
 func init() {
 	propRunners["C13"] = runC13
@@ -15,6 +21,7 @@ func kernelsC13(thorough bool) ([]string, []layera.Kernel) {
 	return []string{"xtype", "builder", "pkgload", "config", "enum"}, []layera.Kernel{
 		{Name: "K9.typecode", Pkg: "xtype", Harness: "VerifHarness_C13_TypeCode", Unwind: 16},
 		{Name: "K9.enumlookup", Pkg: "xtype", Harness: "VerifHarness_C13_EnumLookup", Unwind: 16},
+		{Name: "K5.structassign", Pkg: "builder", Harness: "VerifHarness_C05_StructAssign", Unwind: 32, MaxPaths: 3000000, Workers: 16},
 		{Name: "K9.tostring", Pkg: "builder", Harness: "VerifHarness_C13_ErrorToString", Unwind: 24, MaxPaths: 600000, SetInts: map[string]int{"VerifC13MaxPaths": maxPaths}},
 		{Name: "K9.methodstring", Pkg: "pkgload", Harness: "VerifHarness_C13_ParseMethodString", Unwind: 24},
 		{Name: "K9.methodmap", Pkg: "config", Harness: "VerifHarness_C13_ParseMethodMap", Unwind: 24, Stub: stub},
@@ -36,5 +43,47 @@ func runC13(opt *Options) int {
 			"panic freedom is decided per kernel within its bounds; termination of the whole pipeline, stack depth, go/packages failures are outside (process level)",
 		},
 	}
-	return lr.finish(lr.run(), nil)
+	// Layer B leg (not a solver verdict): the real goverter binary terminates without panic on every
+	// program of the corpus families, expected-failure programs included
+	convs := layerb.FamilyShapeSkip(opt.Thorough())
+	convs = append(convs, layerb.FamilyField(true)...)
+	convs = append(convs, layerb.FamilyName(true)...)
+	convs = append(convs, layerb.FamilyEnum(false)...)
+	convs = append(convs, layerb.FamilyUpdate(false)...)
+	convs = append(convs, layerb.FamilyDefault(false)...)
+	convs = append(convs, layerb.FamilySibling(false)...)
+	for i, c := range layerb.FamilyShape(false, opt.Seed) {
+		if i%4 == 0 {
+			convs = append(convs, c)
+		}
+	}
+	for i, c := range layerb.FamilyCustom(false) {
+		if i%4 == 0 {
+			convs = append(convs, c)
+		}
+	}
+	lb := &lbRun{Opt: opt, Convs: convs, Check: func(pc *layerb.PathCtx) {}, Bounds: layerb.Bounds{}}
+	lbres := lb.runNoExplore()
+	crashes := 0
+	known := loadKnown()
+	if lbres.Corpus != nil {
+		for i, c := range lbres.Corpus.Convs {
+			if c.GenCrash == "" {
+				continue
+			}
+			f := layerb.Finding{Conv: c.ID, Family: c.Family, Kind: "crash", Note: "goverter " + c.GenCrash + ": " + firstLine(c.GenErr)}
+			if k := matchKnown(known, "C13", f.Conv, f.Kind, f.Note); k != nil {
+				fmt.Printf("KNOWN-FINDING: property=C13 %s\n", k.What)
+				continue
+			}
+			dir := saveReplay(filepath.Join(layera.Root(), "replays", "C13"), "C13", 100+i, &f, lbres)
+			crashes++
+			fmt.Printf("VIOLATION property=C13 replay=%s\n  conv=%s: %s\n", dir, c.ID, f.Note)
+		}
+	}
+	rc := lr.finish(lr.run(), map[string]interface{}{"corpus_generation_runs_without_panic_or_hang": map[string]interface{}{"programs": len(convs), "crashes": crashes, "note": "real binary, 90 s limit per run; not decided by the solver"}})
+	if crashes > 0 {
+		return 1
+	}
+	return rc
 }
